@@ -245,7 +245,7 @@ def r2_distinct(run, w, fn, fl):
          "one) are rejected before any doc action", ok, fi=fn.fi)
   # the action is built from the checked list, and that list is what is returned
   for (n, c) in gw:
-    arg = call_arg(c, 0, "doc_action")
+    arg = call_arg(c, 0, "action")
     if arg is None:
       continue
     v = r.expand(arg, n.id)
@@ -253,8 +253,11 @@ def r2_distinct(run, w, fn, fl):
             endswith(dotted(x.func), "convert_action_values")]
     if not conv:
       continue        # extra actions produced by the conversion, not the record action
-    ok = any(isinstance(x, ast.Call) and len(x.args) >= 2 and isinstance(x.args[1], ast.Name) and
-             x.args[1].id == filled for cv in conv for a in cv.args for x in ast.walk(a))
+    def has_filled(x):
+      ids = call_arg(x, 1, "row_ids")
+      return isinstance(ids, ast.Name) and ids.id == filled
+    ok = any(isinstance(x, ast.Call) and has_filled(x) for cv in conv
+             for a in list(cv.args) + [k.value for k in cv.keywords] for x in ast.walk(a))
     run.ob(R2, fn.qualname, "_do_doc_action(<converted ActionType(table_id, <filled>, ...)>)",
            "the record action is built with the checked id list", ok, fi=fn.fi, node=c)
   rets = r.returns()
